@@ -325,8 +325,9 @@ func (w SocialWrappedCallbacks) update(c context.Context, a vocab.ActivityStream
 		for k, v := range newM {
 			m[k] = v
 		}
-		// Delete top-level values where the raw Activity had nils.
-		for k, v := range w.rawActivity {
+		// Delete top-level values where the raw Activity's object had
+		// nils.
+		for k, v := range rawObjectAt(w.rawActivity, idx) {
 			if _, ok := m[k]; v == nil && ok {
 				delete(m, k)
 			}
@@ -347,6 +348,23 @@ func (w SocialWrappedCallbacks) update(c context.Context, a vocab.ActivityStream
 	}
 	if w.Update != nil {
 		return w.Update(c, a)
+	}
+	return nil
+}
+
+// rawObjectAt returns the JSON map literal of the value at index idx of the
+// raw activity's 'object' property, or nil if that value is not a JSON object.
+func rawObjectAt(rawActivity map[string]interface{}, idx int) map[string]interface{} {
+	switch v := rawActivity["object"].(type) {
+	case map[string]interface{}:
+		if idx == 0 {
+			return v
+		}
+	case []interface{}:
+		if idx >= 0 && idx < len(v) {
+			m, _ := v[idx].(map[string]interface{})
+			return m
+		}
 	}
 	return nil
 }
